@@ -330,8 +330,12 @@ func concLin(root string, seed int64, n int, out string) {
 				case 0, 1, 2, 3:
 					sp := concSpec(r, k)
 					plan = append(plan, Op{Op: "ins", Spec: &sp})
-				case 4, 5:
+				case 4:
 					plan = append(plan, Op{Op: "del", K: k})
+				case 5:
+					// an atomic batch: two objects whose unique field may collide with another goroutine's
+					a, b := concSpec(r, 10+r.Intn(4)), concSpec(r, 10+r.Intn(4))
+					plan = append(plan, Op{Op: "many", Specs: []Spec{a, b}})
 				case 6:
 					plan = append(plan, Op{Op: "get", K: k})
 				case 7:
